@@ -1196,3 +1196,114 @@ Theorem C08_histz_example_state :
 Proof. exact exz_stA_shape. Qed.
 Print Assumptions C08_histz_example_state.
 
+
+(** ** ALL histories, MTBDD kind (HISTz part M, Mgr/HistoryM.v): reordering inside a history, the frame of
+    every call, "as on a freshly built diagram" *)
+From Coq Require Import Bool List NArith ZArith PArith FMapPositive.
+From OxiVerif Require Import DD.Sem DD.Build DD.Apply DD.ApplyProofs DD.ConfigApply Num.I64 DD.ApplyMtbdd DD.ApplyMtbddBase
+  DD.ApplyMtbddProofs DD.ApplyMtbddTop Mgr.HistoryExamples
+  Mgr.HistoryM Mgr.HistoryMBase Mgr.HistoryMProofs Mgr.HistoryMThms Mgr.HistoryMSpec Mgr.HistoryMTie Mgr.HistoryMExamples.
+
+Theorem C08_histm_reorder_keeps :
+  forall (gt : ref -> ref -> bool) (C : Type) (cget : C -> N -> list ref -> option ref)
+  (cadd : C -> N -> list ref -> ref -> C),
+  lossy cget cadd ->
+  forall cempty : C,
+  (forall (k : N) (a : list ref), cget cempty k a = None) ->
+  forall (st : hstate_m C) (order : list nat) (st' : hstate_m C),
+  HInvM C cget st ->
+  mhop_pre C st (MHSetVarOrder order) ->
+  hstep_m gt C cget cadd cempty st (MHSetVarOrder order) = Some st' ->
+  HInvM C cget st' /\
+  nlevels (hm_s C st') = nlevels (hm_s C st) /\
+  s_handles (hm_s C st') = s_handles (hm_s C st) /\
+  s_terms (hm_s C st') = s_terms (hm_s C st) /\
+  (forall (x : N) (e : edge),
+  hget (s_handles (hm_s C st)) x = Some e ->
+  ref_ok (hm_s C st') (eref e) /\ (forall a : asg, mfun_of (hm_s C st') (eref e) a = mfun_of (hm_s C st) (eref e) a)) /\
+  (forall a b : nat,
+  a < b < length order -> nth (nth a order 0) (s_v2l (hm_s C st')) 0 < nth (nth b order 0) (s_v2l (hm_s C st')) 0).
+Proof. exact histm_reorder_keeps. Qed.
+Print Assumptions C08_histm_reorder_keeps.
+
+Theorem C08_histm_frame :
+  forall (gt : ref -> ref -> bool) (C : Type) (cget : C -> N -> list ref -> option ref)
+  (cadd : C -> N -> list ref -> ref -> C),
+  lossy cget cadd ->
+  forall cempty : C,
+  (forall (k : N) (a : list ref), cget cempty k a = None) ->
+  forall (st : hstate_m C) (o : mhop) (st' : hstate_m C),
+  HInvM C cget st ->
+  mhop_pre C st o ->
+  hstep_m gt C cget cadd cempty st o = Some st' ->
+  forall (x : N) (e : edge),
+  mhdst o <> Some x ->
+  hget (s_handles (hm_s C st)) x = Some e ->
+  hget (s_handles (hm_s C st')) x = Some e /\
+  ref_ok (hm_s C st') (eref e) /\ (forall a : asg, mfun_of (hm_s C st') (eref e) a = mfun_of (hm_s C st) (eref e) a).
+Proof. exact histm_frame_slots. Qed.
+Print Assumptions C08_histm_frame.
+
+Theorem C08_histm_slot_stable :
+  forall (gt : ref -> ref -> bool) (C : Type) (cget : C -> N -> list ref -> option ref)
+  (cadd : C -> N -> list ref -> ref -> C),
+  lossy cget cadd ->
+  forall cempty : C,
+  (forall (k : N) (a : list ref), cget cempty k a = None) ->
+  forall (ops : list mhop) (st st' : hstate_m C),
+  HInvM C cget st ->
+  mhops_pre gt C cget cadd cempty st ops ->
+  hrun_m gt C cget cadd cempty st ops = Some st' ->
+  forall (x : N) (e : edge),
+  (forall o : mhop, In o ops -> mhdst o <> Some x) ->
+  hget (s_handles (hm_s C st)) x = Some e ->
+  hget (s_handles (hm_s C st')) x = Some e /\
+  ref_ok (hm_s C st') (eref e) /\ (forall a : asg, mfun_of (hm_s C st') (eref e) a = mfun_of (hm_s C st) (eref e) a).
+Proof. exact histm_slot_stable. Qed.
+Print Assumptions C08_histm_slot_stable.
+
+Theorem C08_histm_fresh_equiv :
+  forall (gt1 gt2 : ref -> ref -> bool) (C1 C2 : Type) (cget1 : C1 -> N -> list ref -> option ref)
+  (cadd1 : C1 -> N -> list ref -> ref -> C1) (cget2 : C2 -> N -> list ref -> option ref)
+  (cadd2 : C2 -> N -> list ref -> ref -> C2),
+  lossy cget1 cadd1 ->
+  lossy cget2 cadd2 ->
+  forall (ce1 : C1) (ce2 : C2),
+  (forall (k : N) (a : list ref), cget1 ce1 k a = None) ->
+  (forall (k : N) (a : list ref), cget2 ce2 k a = None) ->
+  forall (n1 n2 : nat) (ops1 ops2 : list mhop) (st1 : hstate_m C1) (st2 : hstate_m C2) (o1 o2 : mhop)
+  (d1 d2 : N) (F : asg -> i64v),
+  mhops_pre gt1 C1 cget1 cadd1 ce1 (hinit_m C1 ce1 n1) ops1 ->
+  hrun_m gt1 C1 cget1 cadd1 ce1 (hinit_m C1 ce1 n1) ops1 = Some st1 ->
+  mhops_pre gt2 C2 cget2 cadd2 ce2 (hinit_m C2 ce2 n2) ops2 ->
+  hrun_m gt2 C2 cget2 cadd2 ce2 (hinit_m C2 ce2 n2) ops2 = Some st2 ->
+  s_l2v (hm_s C1 st1) = s_l2v (hm_s C2 st2) ->
+  s_v2l (hm_s C1 st1) = s_v2l (hm_s C2 st2) ->
+  hspec_m C1 st1 o1 d1 F ->
+  hspec_m C2 st2 o2 d2 F ->
+  exists (st1' : hstate_m C1) (st2' : hstate_m C2) (r1 r2 : ref),
+  hstep_m gt1 C1 cget1 cadd1 ce1 st1 o1 = Some st1' /\
+  hstep_m gt2 C2 cget2 cadd2 ce2 st2 o2 = Some st2' /\
+  mslot C1 st1' d1 = Some r1 /\
+  mslot C2 st2' d2 = Some r2 /\
+  (forall a : asg, mfun_of (hm_s C1 st1') r1 a = F a) /\
+  (forall a : asg, mfun_of (hm_s C2 st2') r2 a = F a) /\
+  count_reach (hm_s C1 st1') (E r1) = count_reach (hm_s C2 st2') (E r2) /\
+  wf_b (hm_s C1 st1') = true /\ wf_b (hm_s C2 st2') = true.
+Proof. exact histm_fresh_equiv. Qed.
+Print Assumptions C08_histm_fresh_equiv.
+
+(* instantiated: 28-call history (cache, swapped operands, two collections, reordering, added variable) vs. fresh 4-variable manager (no cache) *)
+Theorem C08_histm_example_fresh :
+  exists (stA' : hstate_m acache) (stB' : hstate_m unit) (r1 r2 : ref),
+  hstep_m mgtA acache ac_get ac_add nil exm_stA (MHBin MMul 30 5 17) = Some stA' /\
+  hstep_m mgtB unit nc_get nc_add tt exm_stB (MHBin MMul 9 5 2) = Some stB' /\
+  mslot acache stA' 30 = Some r1 /\
+  mslot unit stB' 9 = Some r2 /\
+  (forall a : asg, mfun_of (hm_s acache stA') r1 a = mop_eval MMul (mfA5 a) (mfA17 a)) /\
+  (forall a : asg, mfun_of (hm_s unit stB') r2 a = mop_eval MMul (mfA5 a) (mfA17 a)) /\
+  count_reach (hm_s acache stA') (E r1) = count_reach (hm_s unit stB') (E r2) /\
+  wf_b (hm_s acache stA') = true /\ wf_b (hm_s unit stB') = true.
+Proof. exact exm_fresh_equiv. Qed.
+Print Assumptions C08_histm_example_fresh.
+
